@@ -815,3 +815,13 @@ def par_shared_child():
                 ['A', 'C', 'hC0', [['sleep', 'd1'], ['ret', 'c0']]], ['A', 'C', 'hC1', [['ret', 'c1']]]]
     main = [['root', 'A', 'P', 'P1'], ['await', 'P1'], ['idle', 'A'], ['obs_all', 'end']]
     return dict(buses=['A'], parallel=['A'], reals={'d1': D}, handlers=handlers, main=main, horizon=5)
+
+
+
+def fw_target_loop_died(order=('A', 'B')):
+    """A forwards to B.  A handler on B lets a CancelledError escape (it awaited something that was cancelled), which ends B's run
+    loop task on its own; an event dispatched to A later is forwarded to B and must still be processed there (B restarts)."""
+    handlers = [['A', 'P', 'hA', [['ret', 'a']]], ['B', 'P', 'hB', [['sleep', 'd1'], ['ret', 'b']]],
+                ['B', 'L', 'hLB', [['raise', 'CancelledError']]]]
+    main = [['root', 'B', 'L', 'L0'], ['sleep', 't1'], ['root', 'A', 'P', 'P1'], ['await', 'P1'], ['sleep', '1'], ['obs_all', 'end']]
+    return dict(buses=['A', 'B'], order=list(order), reals={'d1': D, 't1': ['1/100', '3/10']}, handlers=handlers, forwards=[['A', 'B']], main=main, horizon=7)
